@@ -84,6 +84,22 @@ func Setup() {
 	add(spec.Path{Start: vV, Steps: []spec.Step{child()}}, "v")         // $v/*
 	add(spec.Filter{Primary: vV, Preds: []spec.Expr{vK}}, "vk")         // $v[$k]
 	add(spec.Path{Start: vV, Steps: []spec.Step{dos, child(vK)}}, "vk") // $v//*[$k]
+	// numeric predicates whose value varies with the context node
+	nAttr := spec.Fn("number", spec.Rel(spec.S("attribute", spec.NameTest("", "n"))))
+	add(spec.Rel(child(pos)), "")
+	add(spec.Rel(child(nAttr)), "")
+	add(spec.AbsP(dos, child(nAttr)), "")
+	add(spec.Rel(child(spec.Bin{Op: "+", L: spec.Fn("count", spec.Rel(spec.S("preceding-sibling", tAny))), R: spec.Num{V: 1}})), "")
+	add(spec.Rel(child(spec.Bin{Op: "-", L: spec.Bin{Op: "+", L: last, R: spec.Num{V: 1}}, R: pos})), "")
+	add(spec.Filter{Primary: allElems, Preds: []spec.Expr{pos}}, "")
+	add(spec.Filter{Primary: allElems, Preds: []spec.Expr{nAttr}}, "")
+	add(spec.Rel(spec.S("preceding-sibling", tAny, pos)), "")
+	add(spec.Rel(spec.S("ancestor-or-self", tAny, nAttr)), "")
+	add(spec.Rel(spec.S("descendant", tAny, spec.Bin{Op: "=", L: pos, R: nAttr})), "")
+	add(spec.Rel(child(spec.Bin{Op: "=", L: spec.Bin{Op: "mod", L: pos, R: spec.Num{V: 2}}, R: spec.Num{V: 1}})), "")
+	add(spec.Rel(child(vK, pos)), "k")
+	add(spec.Rel(child(spec.Bin{Op: ">", L: pos, R: spec.Num{V: 1}}, spec.Num{V: 1})), "")
+	add(spec.Rel(spec.S("child", tNode, last), spec.S("preceding-sibling", tNode, spec.Num{V: 1})), "")
 	add(spec.Rel(child(vB)), "b")
 	add(spec.Rel(child(vS)), "s")
 	add(spec.Rel(child(spec.Rel(spec.S("child", tA)))), "")                                   // *[a]
@@ -103,7 +119,7 @@ func genOpts() hx.GenOpts {
 // RunPredicates: one menu entry per path (its numeric parameters are
 // full-domain doubles), every scripted document, every context node.
 func RunPredicates() {
-	b := hx.Gen(genOpts())
+	b := hx.GenOrSkeleton(genOpts())
 	nd.Assert(b.TieOK, "store-mirrors-script")
 	ctx := nd.Choice(len(b.Doc.Nodes))
 	cur := b.Cursors[ctx]
